@@ -108,7 +108,14 @@ let run (input : string) (obs : string) : string * string =
        own answers on the same rows (C06) *)
     ("SKIP", if obs = "same" then "pass" else "fail:registry-serving-two-networks-answers-differently-from-a-registry-of-that-network")
   | "estress" ->
-    ("SKIP", if obs = "same" then "pass" else "fail:answer-depends-on-the-goroutine-schedule")
+    if obs = "same" then ("SKIP", "pass") else begin
+      (* unlicensed requests (cut short AND a subject set reached twice) legitimately depend on the schedule *)
+      let tu = C18.p_tuple t in
+      let rd = int_tok t in
+      match run_check tu rd (fun _ -> false) with
+      | Some o when o.o_cut && o.o_revisit -> ("SKIP", "na")
+      | _ -> ("SKIP", "fail:answer-depends-on-the-goroutine-schedule")
+    end
   | "eeff" ->
     (* the request depth only lowers the limit: (r, g) answers what (0, eff(r,g)) answers, on the same state *)
     (match words obs with
